@@ -137,7 +137,9 @@ class World(object):
         for name, m in sorted(self.project._module_cache.items()):
             if isinstance(m, SourceModule):
                 try:
-                    fresh.append((name, m.mtime == os.path.getmtime(m.filename)))
+                    d = os.path.getmtime(m.filename)
+                    # three-valued on purpose: code that compares with < or > instead of != must not be merged away
+                    fresh.append((name, 0 if m.mtime == d else (1 if d > m.mtime else -1)))
                 except OSError:
                     fresh.append((name, None))
         fp = e2.fingerprint([self.project], skip_attrs=('mtime', '_norm_cache'), normalize=(self.root,))
@@ -160,14 +162,15 @@ def do_request(P, r, x):
         return 'EXC:%s:%s' % (type(e).__name__, str(e)[:60])
 
 
-def events(chain, with_d, nreq):
+def events(chain, with_d, nreq, extra=False):
     evs = []
     for m in chain:
         evs.append(('rewrite', m))
     for m in chain:
         evs.append(('touch', m))
-    evs.append(('rewrite_back', chain[-1]))
-    evs.append(('shift', chain[-1]))
+    if extra:
+        evs.append(('rewrite_back', chain[-1]))
+        evs.append(('shift', chain[-1]))
     if with_d:
         evs.append(('create',))
     evs += [('req', j) for j in range(nreq)]
@@ -211,11 +214,12 @@ def worker_root(parent):
 def expand(arg):
     """all transitions out of the state reached by hist: [(event, state key, payload)]"""
     (parent, chain, kinds, with_d, alphabet), hist = arg
+    extra = 4 in alphabet and not with_d      # older-mtime / position-shift rewrites go with the location request
     try:
         root = worker_root(parent)
         out = []
         w0 = World(root, chain, kinds, with_d)
-        evs = [e for e in events(chain, with_d, len(w0.reqs)) if e[0] != 'req' or e[1] in alphabet]
+        evs = [e for e in events(chain, with_d, len(w0.reqs), extra) if e[0] != 'req' or e[1] in alphabet]
         for ev in evs:
             w = World(root, chain, kinds, with_d)
             for e in hist:
@@ -326,6 +330,6 @@ def run(ctx):
         ctx.caps_hit.append('%d project searches hit their state cap (explored breadth-first up to it)' % c['projects_capped'])
     ctx.assumptions += [
         'mtimes come from a logical clock (os.utime), every write gets a new mtime',
-        'absolute mtimes are abstracted to equal/not-equal to the cached one; _norm_cache depends only on directory structure, which no event changes',
+        'absolute mtimes are abstracted to older/equal/newer than the cached one; _norm_cache depends only on directory structure, which no event changes',
         'out of domain as the property says: deleting files, removing __init__.py, shadowing a resolved module from an earlier root',
     ]
